@@ -383,10 +383,9 @@ func (u *Upgrader) Upgrade(w http.ResponseWriter, r *http.Request, responseHeade
 				vt.ResetRawInput()
 				wsc = NewServerConn(u, vt, subprotocol, compress, false)
 				wsc.Engine = engine
+				// the jobs queue of the conn also orders the close handler
+				// after the message handlers, in every epoll mod.
 				wsc.Execute = nbc.Execute
-				if engine.EpollMod == nbio.EPOLLET && engine.EPOLLONESHOT == nbio.EPOLLONESHOT {
-					wsc.Execute = nbhttp.SyncExecutor
-				}
 				if nbhttpConn != nil {
 					nbhttpConn.Parser = nil
 				}
@@ -474,10 +473,9 @@ func (u *Upgrader) Upgrade(w http.ResponseWriter, r *http.Request, responseHeade
 
 			wsc = NewServerConn(u, nbc, subprotocol, compress, false)
 			wsc.Engine = engine
+			// the jobs queue of the conn also orders the close handler
+			// after the message handlers, in every epoll mod.
 			wsc.Execute = nbc.Execute
-			if engine.EpollMod == nbio.EPOLLET && engine.EPOLLONESHOT == nbio.EPOLLONESHOT {
-				wsc.Execute = nbhttp.SyncExecutor
-			}
 			if nbhttpConn != nil {
 				nbhttpConn.Parser = nil
 			}
